@@ -62,6 +62,7 @@ const Prelude = `(set-option :produce-models true)
 (declare-sort Fn 0)
 (declare-const nilFn Fn)
 (declare-const alloc0 (Array Int Bool))
+(assert (not (select alloc0 0)))
 `
 
 // Result of one solver run.
